@@ -246,13 +246,22 @@ func sameAddr(a, b ssa.Value) bool {
 func minLenFromFacts(facts []fact, s ssa.Value) int64 {
 	best := int64(0)
 	for _, f := range facts {
-		be, ok := f.cond.(*ssa.BinOp)
-		if !ok {
-			continue
-		}
 		var k int64
 		var op token.Token
-		if isLenOf(be.X, s) {
+		be, ok := f.cond.(*ssa.BinOp)
+		if !ok {
+			// a predicate method of the value's owner: if p.done() { return }
+			// with done() = len(p.remaining) == 0
+			pc, isCall := f.cond.(*ssa.Call)
+			if !isCall {
+				continue
+			}
+			op2, k2, ok := predicateAsLenTest(pc, s)
+			if !ok {
+				continue
+			}
+			k, op = k2, op2
+		} else if isLenOf(be.X, s) {
 			if kk, ok := constInt(be.Y); ok {
 				k, op = kk, be.Op
 			} else if kk, ok := minConstReturn(be.Y); ok && ((be.Op == token.EQL && f.taken) || (be.Op == token.NEQ && !f.taken) || (be.Op == token.GEQ && f.taken) || (be.Op == token.LSS && !f.taken)) {
@@ -308,6 +317,69 @@ func minLenFromFacts(facts []fact, s ssa.Value) int64 {
 		}
 	}
 	return best
+}
+
+// predicateAsLenTest: call invokes a single-block function that returns
+// "len(P.F) OP k" for a field F of its parameter P, and s is a load of the same
+// field of the value passed for P: the call is that test of len(s).
+func predicateAsLenTest(call *ssa.Call, s ssa.Value) (token.Token, int64, bool) {
+	f := call.Call.StaticCallee()
+	if f == nil || len(f.Blocks) != 1 {
+		return 0, 0, false
+	}
+	ret, ok := f.Blocks[0].Instrs[len(f.Blocks[0].Instrs)-1].(*ssa.Return)
+	if !ok || len(ret.Results) != 1 {
+		return 0, 0, false
+	}
+	be, ok := ret.Results[0].(*ssa.BinOp)
+	if !ok {
+		return 0, 0, false
+	}
+	k, isC := constInt(be.Y)
+	if !isC {
+		return 0, 0, false
+	}
+	lc, ok := be.X.(*ssa.Call)
+	if !ok {
+		return 0, 0, false
+	}
+	if bi, ok := lc.Call.Value.(*ssa.Builtin); !ok || bi.Name() != "len" || len(lc.Call.Args) != 1 {
+		return 0, 0, false
+	}
+	ld, ok := lc.Call.Args[0].(*ssa.UnOp)
+	if !ok || ld.Op != token.MUL {
+		return 0, 0, false
+	}
+	fa, ok := ld.X.(*ssa.FieldAddr)
+	if !ok {
+		return 0, 0, false
+	}
+	prm, ok := fa.X.(*ssa.Parameter)
+	if !ok {
+		return 0, 0, false
+	}
+	pi := -1
+	for i, q := range f.Params {
+		if q == prm {
+			pi = i
+		}
+	}
+	if pi < 0 || pi >= len(call.Call.Args) {
+		return 0, 0, false
+	}
+	sl, ok := s.(*ssa.UnOp)
+	if !ok || sl.Op != token.MUL {
+		return 0, 0, false
+	}
+	sfa, ok := sl.X.(*ssa.FieldAddr)
+	if !ok || sfa.Field != fa.Field {
+		return 0, 0, false
+	}
+	arg := call.Call.Args[pi]
+	if sfa.X != arg && !sameValue(sfa.X, arg) {
+		return 0, 0, false
+	}
+	return be.Op, k, true
 }
 
 // minConstReturn: v is a call of a repository function with a body all of
